@@ -346,6 +346,8 @@ def finish(ctx, assumptions, functions, bounds, outside, rule):
         kf = [k for k in known if k.get('property') == fs[0].prop and k.get('status') == 'known' and k.get('key') == key]
         outcome = None
         # several findings may share a role key: replay up to four of them (different scenarios) until one reproduces
+        # scenarios made of concrete content (literal encodings, fixed special values) first: they replay bit-for-bit
+        fs = sorted(fs, key=lambda f: -f.detail.get('replay_priority', 0))
         for f in fs[:4]:
             reproduced, rep_detail = None, None
             if f.concrete_pred:
